@@ -317,3 +317,45 @@ Example history_example :
   ctable_of (snd (processDNS t1 p)) = ctable_of t1 /\
   ctable_of (run_dns [] [p; p; p]) = ctable_of t1.
 Proof. vm_compute. repeat split; reflexivity. Qed.
+
+(* ------------------------------------------------------------------ *)
+(* name spelling across a history: the table key is the exact octet string (Spec: table_key) *)
+Lemma tfind_tput_other k k' c t : table_key k <> table_key k' -> tfind k (tput k' c t) = tfind k t.
+Proof.
+  unfold table_key. intros Hne. induction t as [|x r IH]; cbn [tput tfind fst snd].
+  - destruct (lab_eqb k' k) eqn:E; [apply lab_eqb_eq in E; congruence|reflexivity].
+  - destruct (lab_eqb (fst x) k') eqn:E1; cbn [tfind fst snd].
+    + apply lab_eqb_eq in E1. destruct (lab_eqb k' k) eqn:E2; [apply lab_eqb_eq in E2; congruence|].
+      destruct (lab_eqb (fst x) k) eqn:E3; [apply lab_eqb_eq in E3; congruence|reflexivity].
+    + destruct (lab_eqb (fst x) k); [reflexivity|exact IH].
+Qed.
+
+(* a response about one spelling never touches the entry of another spelling (nor of any other name) *)
+Theorem other_spelling_untouched t p name : forall q index,
+  decodeQuestion p 12 {| arr := repeat 0 64; len := 0 |} = Ok (q, index) -> q_name q <> name ->
+  tbl_find name (snd (processDNS t p)) = tbl_find name t.
+Proof.
+  intros q index Hq Hne. unfold processDNS, processDNS_buf.
+  destruct (Nat.ltb _ 12); [reflexivity|]. rewrite Hq.
+  destruct (tbl_find (q_name q) t) as [e0|] eqn:F0.
+  - pose proof (decodeAnswers_grows p (Z.of_nat index) {| arr := repeat 0 64; len := 0 |} e0) as (Hn & _).
+    destruct (decodeAnswers p _ _ e0) as [r e']. cbn [snd] in Hn.
+    assert (P : tbl_find name (tbl_put e' t) = tbl_find name t).
+    { rewrite tbl_find_put. destruct (bytes_eqb (de_name e') name) eqn:E; [|reflexivity].
+      apply bytes_eqb_eq in E. rewrite Hn, (tbl_find_name _ _ _ F0) in E. contradiction. }
+    destruct r as [[o [|]]|y| |]; cbn [snd]; auto.
+  - pose proof (decodeAnswers_grows p (Z.of_nat index) {| arr := repeat 0 64; len := 0 |} (new_entry (q_name q))) as (Hn & _).
+    destruct (decodeAnswers p _ _ (new_entry (q_name q))) as [r e']. cbn [snd new_entry de_name] in Hn.
+    assert (P : tbl_find name (tbl_put e' t) = tbl_find name t).
+    { rewrite tbl_find_put. destruct (bytes_eqb (de_name e') name) eqn:E; [|reflexivity].
+      apply bytes_eqb_eq in E. rewrite Hn in E. contradiction. }
+    destruct r as [[o [|]]|y| |]; cbn [snd]; auto.
+Qed.
+
+(* "X" asked twice with different addresses, "x" once in between: two entries; X keeps both addresses *)
+Example spelling_history_example :
+  let msg (n : N) (ip : N) := of_bytes ([0;1;129;128; 0;1; 0;1; 0;0; 0;0] ++ [1; n; 0; 0;1; 0;1] ++
+                                        [192;12; 0;1; 0;1; 0;0;0;60; 0;4; 10;0;0;ip]) in
+  let t := run_dns [] [msg 88 1; msg 120 2; msg 88 3] in
+  map (fun e => (de_name e, List.length (de_ip4 e))) t = [([88], 2%nat); ([120], 1%nat)].
+Proof. vm_compute. reflexivity. Qed.
